@@ -134,12 +134,13 @@ def staking(tier, seed):
     return gens_staking.targeted() + gens_staking.staking(rnd, {"quick": 60, "thorough": 1500}[tier]) + regress("staking")
 
 
-MC["staking"] = {"quick": ("MCLedger", "mc/MCLedger_q.cfg"), "thorough": ("MCLedger", "mc/MCLedger_q.cfg")}
+# no TLC model of the staking / pool actions exists yet: these families are decided on traces of the real node only
+MC["staking"] = None
 def markets(tier, seed):
     rnd = random.Random("%d/markets" % seed)
     return gens_markets.markets(rnd, {"quick": 80, "thorough": 3000}[tier]) + regress("markets")
 
 
-MC["markets"] = {"quick": ("MCLedger", "mc/MCLedger_q.cfg"), "thorough": ("MCLedger", "mc/MCLedger_q.cfg")}
+MC["markets"] = None
 BUILDERS = {"markets": markets, "staking": staking, "ledger": ledger, "durability": durability, "crash": lambda tier, seed: crash(tier, seed) + crash_enumeration(tier, seed)}
 RANDOMISED = True
